@@ -42,6 +42,9 @@ def ambient(spec):
     if "week" in what:
         pendulum.week_starts_at(pendulum.SUNDAY)
         pendulum.week_ends_at(pendulum.SATURDAY)
+        # the standard library's own process-wide calendar configuration is not pendulum's business either
+        import calendar as _cal
+        _cal.setfirstweekday(_cal.SUNDAY)
     if "locale" in what:
         pendulum.set_locale("de")
     if "localtz" in what:
